@@ -177,7 +177,14 @@ def problems(
     if kind == "full":
         selection["full"] = sorted(draw(st.sets(st.integers(0, n_blocks - 1), min_size=1)))
     elif kind == "mask":
-        for b in sorted(draw(st.sets(st.integers(0, n_blocks - 1), min_size=1))):
+        # half of the mask dictionaries name just one of the largest blocks (whatever its position): a genuinely partial
+        # mask needs a block of size >= 3, and dictionaries whose keys are not 0..k-1 are a class of their own
+        if draw(st.booleans()):
+            big = [b for b in range(n_blocks) if blocks[b] == max(blocks)]
+            masked = [draw(st.sampled_from(big))]
+        else:
+            masked = sorted(draw(st.sets(st.integers(0, n_blocks - 1), min_size=1)))
+        for b in masked:
             s = blocks[b]
             states = [i for i in range(N) if assign[i] == b]
             mask = [[0] * s for _ in range(s)]
